@@ -6,6 +6,7 @@ import (
 	"io"
 	"os"
 	"path/filepath"
+	"slices"
 	"strings"
 	"time"
 
@@ -75,6 +76,14 @@ func RunCommand(ctx context.Context, opts *RunCommandOptions) error {
 
 	parser := syntax.NewParser()
 
+	// The names of "set" options are not "shopt" options: given one of
+	// them, the interpreter's shopt builtin indexes out of range
+	for _, opt := range opts.BashOpts {
+		if slices.Contains(setOptionNames, opt) {
+			return fmt.Errorf(`task: %q is an option of "set", not of "shopt"`, opt)
+		}
+	}
+
 	// Run any shopt commands
 	if len(opts.BashOpts) > 0 {
 		shoptCmdStr := fmt.Sprintf("shopt -s %s", strings.Join(opts.BashOpts, " "))
@@ -94,6 +103,9 @@ func RunCommand(ctx context.Context, opts *RunCommandOptions) error {
 	}
 	return r.Run(ctx, p)
 }
+
+// setOptionNames are the long names of the POSIX shell options ("set -o").
+var setOptionNames = []string{"allexport", "errexit", "noexec", "noglob", "nounset", "xtrace", "pipefail"}
 
 func escape(s string) string {
 	s = filepath.ToSlash(s)
